@@ -580,3 +580,26 @@ def check_C09(ctx):
     for c in cases[:1] + cases[-1:]:
         ctx.sample({"id": c["id"], "serial_outcome": c["serial"]["outcome"][:80], "serial_jobs": c["serial"]["parse_jobs"][:10], "a_parallel_order": c["runs"][-1]["parse_jobs"][:10] if c["runs"] else []})
     ctx.assumptions += ["schedules of the real thread pool are sampled by thread count and repetition; exhaustiveness is on the model side only"]
+
+
+def check_C11(ctx):
+    ctx.rule = ("the CodeTransform handed to CustomSection::apply_code_transform (preserve_code_transform on), against the layouts of the input and output code sections decoded "
+                "independently: per kept function the pairs form a strictly increasing, name-preserving map from input operator starts onto all output operator starts except inserted ones "
+                "(edit-inserted marked instructions, the else walrus adds); every function range equals the output entry [size LEB, end); code_section_start equals the offset of the code "
+                "section's contents; no pair belongs to code that was not emitted; for {unchanged, GC, instructions inserted through the builder}. Design: Body.tla (the emitted string is the "
+                "parsed one after elision, in order) makes the monotone onto map unique. A case is one (module, variant).")
+    q = ctx.quick()
+    cfg = write_cfg("MC_Body_gen", "SPECIFICATION BSpec\nCONSTANTS\n  MaxLen = %d\n  MaxDepth = 3\nINVARIANTS\n  EmittedMatches\n  EmittedBalanced\nCHECK_DEADLOCK FALSE\n" % (5 if q else 6))
+    model_check(ctx, "Body", cfg=cfg, workers=8, label="design-body")
+    ctl = enum_control_strings(ctx, 4 if q else 5)
+    n = 300 if q else 10000
+    trace = os.path.join(ctx.work, "xform.ndjson")
+    out = wv(["trace-xform", "inputs=ctl:%s,fixtures,file:%s,gen:%d,gen:%d:many,gen:%d:big" % (ctl, DODRIO, n, 6 if q else 60, n // 20), "seed=%d" % ctx.seed, "out=" + trace])
+    ctx.notes["harness"] = out.strip().splitlines()[-1]
+    r, cases = judge_trace(ctx, "Trace_Xform", trace, slim=lambda c: {"id": c["id"], "source": c["source"], "variant": c.get("variant")})
+    ok = [c for c in cases if c["outcome"] == "ok"]
+    ctx.notes["pairs_checked"] = sum(c["npairs"] for c in ok)
+    ctx.notes["instructions_inserted_by_edits"] = sum(c["inserted"] for c in ok)
+    ctx.notes["function_counts_seen"] = sorted(set(c["nfuncs_out"] for c in ok))[-8:]
+    for c in ok[:1] + ok[-1:]:
+        ctx.sample({"id": c["id"], "code_section_start": c["code_section_start"], "ranges": c["ranges"][:3], "pairs_of_first_function": c["funcs"][0]["pairs"][:6] if c["funcs"] else []})
